@@ -192,7 +192,7 @@ func result(ip *net.IPAddr, err error) string {
 func main() {
 	run := kit.Start("C18", rule)
 	defer run.Finish()
-	n := run.Pick(20000, 1000000)
+	n := run.Pick(20000, 4000000)
 	run.Parallel(n/500, func(b int) {
 		r := run.Rand(uint64(b))
 		for i := 0; i < 500; i++ {
